@@ -477,6 +477,17 @@ impl Sim {
                 // job started from a shell is: a tree kill is a signal to
                 // that group (^C, timeout(1), a CI cancel)
                 libc::setpgid(0, 0);
+                // the run must not depend on how the harness was started: no
+                // inherited ignored or blocked signals (a background job of a
+                // non-interactive shell ignores SIGINT and SIGQUIT)
+                for sig in 1..32 {
+                    if sig != libc::SIGKILL && sig != libc::SIGSTOP {
+                        libc::signal(sig, libc::SIG_DFL);
+                    }
+                }
+                let mut set: libc::sigset_t = std::mem::zeroed();
+                libc::sigemptyset(&mut set);
+                libc::sigprocmask(libc::SIG_SETMASK, &set, std::ptr::null_mut());
                 if libc::chdir(cwd_c.as_ptr()) < 0 {
                     libc::_exit(96);
                 }
